@@ -68,16 +68,23 @@ static void run_case(const vh::Case &cs) {
                     emit(c, 0, Result{});
                     break;
                 case 1: {
-                    if (op.size() != 3 || !c.gen || op[1] < 0 || op[1] > 8 || (A && (op[1] == 1 || op[1] == 7))) {
+                    // styles 10..18 = styles 0..8 issued from inside a running coroutine (resumption queue active)
+                    bool in_coro = op.size() == 3 && op[1] >= 10 && op[1] <= 18;
+                    long base = op.size() == 3 ? (in_coro ? op[1] - 10 : op[1]) : -1;
+                    if (op.size() != 3 || !c.gen || base < 0 || base > 8 || (A && (base == 1 || base == 7))) {
                         c.sink->nev = 0;
                         vh::print_obs({1, 0, 0, 0, 0, 0, 0});
                         break;
                     }
-                    int style = (int)op[1];
+                    int style = (int)base;
                     c.argv = (int)op[2];
                     c.res_ready = false;
+                    auto in_mode = [&](std::function<void()> f) {
+                        if (in_coro) coro_queue::install_queue_and_call([&] { run_in_coro(f); });
+                        else f();
+                    };
                     if (style == 7) {
-                        if constexpr (!A) {
+                        if constexpr (!A) in_mode([&] {
                             Result r;
                             try {
                                 for (int v : *c.gen) {
@@ -96,25 +103,25 @@ static void run_case(const vh::Case &cs) {
                                 r.kind = K_NREADY;
                             }
                             emit(c, 0, r);
-                        }
+                        });
                         break;
                     }
                     if (style == 8) {
-                        c.chain_start(c.argv);
+                        in_mode([&] { c.chain_start(c.argv); });
                         if (!c.chain_done) ctl::block_until("xwait", [&] { return c.chain_done; });
                         break;
                     }
                     if (style == 6) {
-                        c.sub_access();
+                        in_mode([&] { c.sub_access(); });
                         if (!c.res_ready) {
                             ctl::block_until("xwait", [&] { return c.cawt.count > 0; });
                             c.sub_poll();
                         }
                     } else if (style == 3 || style == 4) {
-                        c.async_access(style);   // may finish on the completer's thread
+                        in_mode([&] { c.async_access(style); });   // may finish on the completer's thread
                         if (!c.res_ready) ctl::block_until("xwait", [&] { return c.res_ready; });
                     } else {
-                        c.sync_access(style);    // blocks this thread inside the library if the body suspends
+                        in_mode([&] { c.sync_access(style); });    // blocks this thread inside the library if the body suspends
                     }
                     c.res_ready = false;
                     emit(c, 0, c.res);
